@@ -186,6 +186,8 @@ impl EventLoop {
 
         let inflight_full = self.state.inflight >= self.state.max_outgoing_inflight;
         let collision = self.state.collision.is_some();
+        // a peer that stops reading must not block the loop (and its keep alive) for ever
+        let network_timeout = Duration::from_secs(self.options.connection_timeout());
 
         // Read buffered events from previous polls before calling a new poll
         if let Some(event) = self.state.events.pop_front() {
@@ -232,7 +234,7 @@ impl EventLoop {
                     if let Some(outgoing) = self.state.handle_outgoing_packet(request)? {
                         network.write(outgoing).await?;
                     }
-                    network.flush().await?;
+                    time::timeout(network_timeout, network.flush()).await??;
                     Ok(self.state.events.pop_front().unwrap())
                 }
                 Err(_) => Err(ConnectionError::RequestsDone),
@@ -242,9 +244,9 @@ impl EventLoop {
                 // flush all the acks and return first incoming packet. The acks of the
                 // packets read before one that ended the batch with an error were
                 // announced as well: they go out first
-                let flushed = network.flush().await;
+                let flushed = time::timeout(network_timeout, network.flush()).await;
                 o?;
-                flushed?;
+                flushed??;
                 Ok(self.state.events.pop_front().unwrap())
             },
             // We generate pings irrespective of network activity. This keeps the ping logic
@@ -257,7 +259,7 @@ impl EventLoop {
                 if let Some(outgoing) = self.state.handle_outgoing_packet(Request::PingReq)? {
                     network.write(outgoing).await?;
                 }
-                network.flush().await?;
+                time::timeout(network_timeout, network.flush()).await??;
                 Ok(self.state.events.pop_front().unwrap())
             }
         }
